@@ -22,7 +22,7 @@ PROPERTY_ID = "C08"
 ENGINE = "hypothesis @given; metamorphic pair (relabelled vs original fields) on the public pipeline in fresh processes"
 RULE = (
     "Case = multi-field model point (Z2x2 two fields; Cubic1 one field for reflections/translations) x "
-    "relabelling u = P(S x + c): P over all orderings, S in {+-1}^n, c_i in {0} u +-[1,300] (base units, "
+    "relabelling u = P(S x + c): P over all orderings, S in {+-1}^n, c_i in {0} u +-[1,5000] (base units, "
     "vev ~ 200). Non-trivial = relabelling is not the identity and the untransformed run succeeds (or is a "
     "clean runaway); labels: permutation-only / reflection-only / translation-only / mixed. Distinct by canonical JSON."
 )
@@ -76,7 +76,7 @@ def st_case(draw):
             signs[draw(st.integers(0, nf - 1))] = -1.0
     if kind in ("trans", "mixed"):
         shift = [draw(st.sampled_from([0.0, 1.0, 1.0])) * draw(st.sampled_from([-1.0, 1.0]))
-                 * round(10 ** draw(st.floats(0.0, 2.5)), 1) for _ in range(nf)]
+                 * round(10 ** draw(st.floats(0.0, 3.7)), 1) for _ in range(nf)]
         if kind == "trans" and all(c == 0 for c in shift):
             shift[0] = 37.5
     return {"kind": "relabel", "spec": spec, "relabel": {"perm": perm, "signs": signs, "shift": shift}}
